@@ -105,13 +105,13 @@ func c23Rewriters() []c23Rewriter {
 
 var c23Hosts = []string{"..", "a/..", "%2e%2e", "", "a"}
 var c23AEs = []string{"", "gzip"}
-var c23FSKinds = []string{"os", "memfs"}
+var c23FSKinds = []string{"os", "memfs", "memfs-root-a"} // the third: FS{FS: fs.FS, Root: "a"} (root inside the fs.FS)
 
 type c23Env struct {
 	tmp, root, croot string
 	mem              *c23LogFS
 	rw               []c23Rewriter
-	h                [3][]RequestHandler // [os | memfs SkipCache (used without Accept-Encoding) | memfs cached (used with gzip)][rewriter]
+	h                [4][]RequestHandler // [os | memfs SkipCache (used without Accept-Encoding) | memfs cached (used with gzip) | memfs Root="a"][rewriter]
 	walked           map[string]bool     // (rewriter, file-selecting path, encoding) already followed by a tree walk
 	ctx, ctx2        RequestCtx
 	stop             chan struct{}
@@ -166,6 +166,8 @@ func c23NewEnv(base string, id int) (*c23Env, error) {
 		e.h[0] = append(e.h[0], osfs.NewRequestHandler())
 		e.h[1] = append(e.h[1], memfs.NewRequestHandler())
 		e.h[2] = append(e.h[2], memfsCached.NewRequestHandler())
+		memfsRoot := &FS{FS: e.mem, Root: "a", Compress: true, GenerateIndexPages: true, IndexNames: []string{"aa"}, AcceptByteRange: true, PathRewrite: rw.f, SkipCache: true}
+		e.h[3] = append(e.h[3], memfsRoot.NewRequestHandler())
 	}
 	e.ctx.Init(&Request{}, nil, c23NopLogger{})
 	e.ctx2.Init(&Request{}, nil, c23NopLogger{})
@@ -319,7 +321,7 @@ func (e *c23Env) run(r *vrt.R, rwIdx, fsKind int, target, host, ae string, cnt *
 	if ae != "" {
 		c.Request.Header.Set("Accept-Encoding", ae)
 	}
-	if fsKind == 1 {
+	if fsKind >= 1 {
 		e.mem.take()
 	}
 	panicked := false
@@ -331,8 +333,11 @@ func (e *c23Env) run(r *vrt.R, rwIdx, fsKind int, target, host, ae string, cnt *
 			}
 		}()
 		hk := fsKind
-		if fsKind == 1 && ae != "" {
+		switch {
+		case fsKind == 1 && ae != "":
 			hk = 2 // compressing on every request (SkipCache) is the dominating cost; the cached instance compresses once per path
+		case fsKind == 2:
+			hk = 3
 		}
 		e.h[hk][rwIdx](c)
 	}()
@@ -363,7 +368,7 @@ func (e *c23Env) run(r *vrt.R, rwIdx, fsKind int, target, host, ae string, cnt *
 		r.Violation("not-rejected:"+reason+":"+rw.Kind+":"+c23FSKinds[fsKind]+sfx,
 			fmt.Sprintf("%s: file-selecting path %q must be rejected, status %d", desc(), sel, status), art())
 	}
-	if fsKind == 1 {
+	if fsKind >= 1 {
 		names := e.mem.take()
 		cnt.memOpens += int64(len(names))
 		if len(names) > 0 {
@@ -448,6 +453,10 @@ func (e *c23Env) target(r *vrt.R, target string, withGzip bool, cnt *c23Counts) 
 					cnt.statusDiffers++
 				}
 				n += 2
+			}
+			if withGzip {
+				e.run(r, rwIdx, 2, target, host, "", cnt)
+				n++
 			}
 		}
 	}
@@ -579,7 +588,8 @@ func TestVerif_C23(t *testing.T) {
 	r.Rule(fmt.Sprintf("request targets: \"/\"+s for every s of <=%d symbols over %q, raw s for <=%d symbols, and %d templates ('..' in %d spellings at every position of 0..4-segment paths x separators, "+
 		"absolute-form/query/fragment tricks, paths up to 65536 bytes); x Host %q (all five for the vhost rewriter, \"a\" otherwise) x rewriters none/vhost(0-2)/slashes(0-3)/prefix(0-5) "+
 		"x {FS{Root} on disk with CompressRoot!=Root (cached handles), FS{FS: logging in-memory fs.FS} (SkipCache without Accept-Encoding, cached with gzip)} "+
-		"x Accept-Encoding {none, gzip (gzip for strings of <=%d symbols and all templates)}, Compress+Brotli+Zstd on, index pages on. "+
+		"x Accept-Encoding {none, gzip (gzip for strings of <=%d symbols and all templates)}, Compress+Brotli+Zstd on, index pages on; "+
+		"for the same subset also FS{FS: fs.FS, Root: \"a\"}. "+
 		"Oracle: every fs.FS Open name has no '..' element, is not absolute and has no NUL; a file-selecting path (rewriter output on a twin RequestCtx) with NUL or a '..' segment => status>=400 and no Open; "+
 		"no response body carries the marker planted in every file outside Root; no file appears outside root/ and croot/. "+
 		"Non-trivial: distinct (rewriter, fs, file-selecting path, status) where the reference demands rejection, or the fs.FS handler opened something, or the OS handler answered 200/302.",
